@@ -2,6 +2,8 @@
 
 package bt
 
+import "sync"
+
 // VerifHook, when set, receives one event per lock operation and per access to a guarded
 // field of FeeQuote / FeeQuotes (verification builds only: -tags verif).
 var VerifHook func(method, op, on string)
@@ -10,4 +12,28 @@ func verifTrace(method, op, on string) {
 	if VerifHook != nil {
 		VerifHook(method, op, on)
 	}
+}
+
+// verifAccess reports an access to a guarded field together with what the guarding mutex
+// really looks like at that moment: "read" needs it held (shared or exclusive), "write"
+// needs it held exclusively; otherwise the op is reported with the suffix "!unguarded".
+// Only meaningful in the single-threaded discipline recording, where nobody else holds mu.
+func verifAccess(method, op, on string, mu *sync.RWMutex) {
+	if VerifHook == nil {
+		return
+	}
+	guarded := true
+	if op == "write" {
+		if mu.TryRLock() { // succeeds unless held exclusively
+			mu.RUnlock()
+			guarded = false
+		}
+	} else if mu.TryLock() { // succeeds only if not held at all
+		mu.Unlock()
+		guarded = false
+	}
+	if !guarded {
+		op += "!unguarded"
+	}
+	VerifHook(method, op, on)
 }
